@@ -479,7 +479,7 @@ handle_arglist(spif_int32_t n, spif_charptr_t val_ptr, unsigned char hasequal,
                spif_int32_t i, int argc, char *argv[])
 {
     spif_charptr_t *tmp;
-    register unsigned short k;
+    register unsigned long k;
 
     D_OPTIONS(("Argument list option detected\n"));
     if (hasequal) {
@@ -489,19 +489,19 @@ handle_arglist(spif_int32_t n, spif_charptr_t val_ptr, unsigned char hasequal,
         for (k = 0; val_ptr; k++) {
             tmp[k] = spiftool_get_word(1, val_ptr);
             val_ptr = spiftool_get_pword(2, val_ptr);
-            D_OPTIONS(("tmp[%d] == %s\n", k, tmp[k]));
+            D_OPTIONS(("tmp[%lu] == %s\n", k, tmp[k]));
         }
         tmp[k] = (spif_charptr_t) NULL;
         *((spif_charptr_t **) SPIFOPT_OPT_VALUE(n)) = tmp;
     } else {
-        unsigned short len = argc - i;
+        unsigned long len = argc - i;
 
         /* No equals sign, so use the rest of the command line and break. */
         tmp = (spif_charptr_t *) MALLOC(sizeof(spif_charptr_t ) * (argc - i + 1));
 
         for (k = 0; k < len; k++) {
             tmp[k] = (spif_charptr_t) STRDUP(argv[k + i]);
-            D_OPTIONS(("tmp[%d] == %s\n", k, tmp[k]));
+            D_OPTIONS(("tmp[%lu] == %s\n", k, tmp[k]));
             if (SPIFOPT_FLAGS_IS_SET(SPIFOPT_SETTING_REMOVE_ARGS)) {
                 argv[k + i] = NULL;
             }
